@@ -556,6 +556,7 @@ class Intervals:
         itv = None
         extra = {}
         alias = None
+        post_len = None
 
         def arg_itv(i):
             return self.op_itv(st, args[i])
@@ -582,6 +583,10 @@ class Intervals:
                 if sm is not None and sm[0] == sm[1]:
                     itv = (sm[0], sm[0]) if pos else (1 - sm[0], 1 - sm[0])
                 alias = ("issome" if pos else "isnone", (r["l"], ()))
+        elif ends("str::<impl str>::find", "str::<impl str>::rfind") and args:
+            li = self.len_itv(st, args[0])
+            if li[1] >= 1:
+                extra[("pay", d)] = (0, li[1] - 1)
         elif ends("util::TimeSource::now") and not args:
             itv = NOW_RANGE
         elif ends("cmp::min", "cmp::Ord::min") and len(args) == 2:
@@ -677,6 +682,15 @@ class Intervals:
                 extra[("len", (d, (".0",)))] = (mid[0], min(mid[1], base[1]))
                 lo = max(0, base[0] - mid[1]) if mid[1] != INF else 0
                 extra[("len", (d, (".1",)))] = (lo, max(0, base[1] - mid[0]))
+        elif ends("util::MsgBuffer::set_length") and len(args) == 2:
+            kk = key_of(body, op_place(args[0])) if op_place(args[0]) else None
+            n = arg_itv(1)
+            if kk is not None and n is not None:
+                post_len = (kk, (max(0, n[0]), min(LEN_MAX, n[1])))
+        elif ends("util::MsgBuffer::clear") and len(args) == 1:
+            kk = key_of(body, op_place(args[0])) if op_place(args[0]) else None
+            if kk is not None:
+                post_len = (kk, (0, 0))
         elif ends("convert::AsRef::as_ref", "ops::Deref::deref", "ops::DerefMut::deref_mut", "convert::AsMut::as_mut", "borrow::Borrow::borrow") and args:
             # handled through deep_root aliasing: nothing to do
             pass
@@ -710,6 +724,8 @@ class Intervals:
             st.alias[d] = alias
         for k, v in extra.items():
             st.set(k, v)
+        if post_len is not None:
+            st.set(("len", post_len[0]), post_len[1])
 
     def _seq_arg(self, op):
         p = op_place(op)
@@ -1161,7 +1177,7 @@ def _discharge_with(site, an):
         cls = site.kind[4:]
         args = t["args"]
         if cls == "index" and len(args) == 2:
-            g = _cursor_prefix_guard(body, t)
+            g = _cursor_prefix_guard(body, t) or _str_find_guard(body, t)
             if g:
                 return True, g
             base = an.len_itv(st, args[0])
@@ -1188,6 +1204,9 @@ def _discharge_with(site, an):
                     return ok, "index %s < len %s" % (idx, base)
             return False, "unrecognised index argument"
         if cls == "slice-len" and len(args) == 2:
+            g = _same_len_guard(an, st, body, args[0], args[1])
+            if g:
+                return True, g
             a, b = an.len_itv(st, args[0]), an.len_itv(st, args[1])
             ok = a[0] == a[1] == b[0] == b[1]
             return ok, "destination len %s, source len %s" % (a, b)
@@ -1295,3 +1314,89 @@ def _cursor_prefix_guard(body, t):
             if r is not None and r["l"] == cur:
                 return None
     return "prefix up to Cursor::position() of the cursor's own buffer; the cursor is never repositioned"
+
+
+def _str_find_guard(body, t):
+    """s[..pos] / s[pos..] / s[pos + 1..] where pos is the payload of Some returned by s.find(c) for a
+    one-byte (ASCII) char constant c on the same string: pos is a char boundary < len and so is pos + 1."""
+    from .mirutil import origin
+    args = t["args"]
+    rng = origin(body, args[1])
+    if rng[0] != "rvalue" or rng[2]["rv"]["k"] != "aggregate":
+        return None
+    rv = rng[2]["rv"]
+    adt = rv.get("adt", "")
+    if not (adt.endswith("ops::RangeTo") or adt.endswith("ops::RangeFrom")):
+        return None
+    bound = rv["ops"][0]
+
+    def find_call(op, allow_plus1):
+        p = op_place(op)
+        if p is None:
+            return None
+        r = root_place(body, p)
+        projs = [e for e in r.get("p", []) if e["k"] != "deref"]
+        if len(projs) == 2 and projs[0]["k"] == "downcast" and projs[0].get("v") == "Some" and projs[1]["k"] == "field":
+            d = defuse(body).single_def(r["l"])
+            if d and d[0] == "call" and callee_is(d[2], "str::<impl str>::find"):
+                return d[2]
+            return None
+        if len(projs) == 1 and projs[0]["k"] == "field" and projs[0]["i"] == 0 and allow_plus1:
+            d = defuse(body).single_def(r["l"])
+            if d and d[0] == "stmt" and d[3]["rv"]["k"] == "binop" and d[3]["rv"]["op"] in ("AddWithOverflow", "Add") and op_const(d[3]["rv"]["b"]) == 1:
+                return find_call(d[3]["rv"]["a"], False)
+        if not projs:
+            d = defuse(body).single_def(r["l"])
+            if d and d[0] == "stmt" and d[3]["rv"]["k"] == "use":
+                return find_call(d[3]["rv"]["op"], allow_plus1)
+        return None
+
+    fc = find_call(bound, adt.endswith("ops::RangeFrom"))
+    if fc is None:
+        return None
+    pat = fc["args"][1]
+    c = op_const(pat)
+    if c is None or not (0 <= c < 128):
+        return None
+    s1 = deep_root(body, fc["args"][0])
+    s2 = deep_root(body, args[0])
+    if s1 is None or s2 is None or s1["l"] != s2["l"] or _names_of(s1) != _names_of(s2):
+        return None
+    return "index is the position returned by find(ASCII char) on the same string (a char boundary below len)"
+
+
+def _names_of(place):
+    return tuple(str(e.get("n", e.get("i"))) for e in place.get("p", []) if e["k"] == "field")
+
+
+def _same_len_guard(an, st, body, dst, src):
+    """copy_from_slice(x[0..n], src) / (x[..n], src) where n = src.len(): equal lengths by construction."""
+    from .mirutil import origin
+    o = origin(body, dst)
+    if o[0] != "call" or not callee_is(o[2], "ops::Index::index", "ops::IndexMut::index_mut"):
+        return None
+    rng = origin(body, o[2]["args"][1])
+    if rng[0] != "rvalue" or rng[2]["rv"]["k"] != "aggregate":
+        return None
+    rv = rng[2]["rv"]
+    adt = rv.get("adt", "")
+    if adt.endswith("ops::Range"):
+        if op_const(rv["ops"][0]) != 0:
+            return None
+        end = rv["ops"][1]
+    elif adt.endswith("ops::RangeTo"):
+        end = rv["ops"][0]
+    else:
+        return None
+    eo = origin(body, end)
+    if eo[0] != "call" or not eo[2]["args"]:
+        return None
+    c = eo[2].get("callee") or {}
+    if c.get("name") != "len":
+        return None
+    k1 = key_of(body, op_place(eo[2]["args"][0])) if op_place(eo[2]["args"][0]) else None
+    k2 = key_of(body, op_place(src)) if op_place(src) else None
+    if k1 is None or k2 is None or k1 != k2:
+        return None
+    # the base must be long enough: that is the Index site's own obligation
+    return "destination is x[0..n] with n = len() of the source slice"
